@@ -8,15 +8,23 @@
 static int g_inits; static const void* g_init_key; static size_t g_init_size; static randomx_cache* g_init_cache; static _Bool g_initialised;
 static void stub_initialize(randomx_cache* c, const void* key, size_t keySize) { g_inits++; g_init_cache = c; g_init_key = key; g_init_size = keySize; g_initialised = 1; }
 _Bool randomx_cache_isInitialized(randomx_cache* c) { return g_initialised; }
+/* STUBs for byte-wise comparisons a rewritten shortcut might use, over the abstract key identity (equal ids <=> equal byte
+   strings): memcmp is exact; the C-string comparisons stop at a zero byte, so for binary keys they return 0 whenever the
+   bytes are equal and ANY value otherwise - an equality test built on them is refuted. */
+int memcmp(const void* a, const void* b, size_t n) { if (__CPROVER_uninterpreted_rxv_key_id(a, n) == __CPROVER_uninterpreted_rxv_key_id(b, n)) return 0; return 1; }
+int strncmp(const char* a, const char* b, size_t n) { if (__CPROVER_uninterpreted_rxv_key_id(a, n) == __CPROVER_uninterpreted_rxv_key_id(b, n)) return 0; return nondet_int(); }
+int strcmp(const char* a, const char* b) { return nondet_int(); }
 unsigned long long nondet_ull(void); int nondet_int(void); size_t nondet_size(void);
 void h_init_cache(void) {
-	static randomx_cache cache; static char keybuf[1];
+	static randomx_cache cache; static char keybuf[1], oldbuf[1];
 	const char* key = keybuf; size_t keySize = nondet_size();
 	cache.initialize = stub_initialize;
-	cache.cacheKey.id = nondet_ull(); cache.cacheKey.size = nondet_size(); cache.cacheKey.data = 0;
+	cache.cacheKey.id = nondet_ull(); cache.cacheKey.size = nondet_size(); cache.cacheKey.data = oldbuf;
 	g_initialised = nondet_int() != 0;
 	unsigned long long old_id = cache.cacheKey.id, new_id = __CPROVER_uninterpreted_rxv_key_id(key, keySize);
 	_Bool was_initialised = g_initialised;
+	/* string-model representation invariant: the identity is that of the bytes the string holds */
+	__CPROVER_assume(__CPROVER_uninterpreted_rxv_key_id(cache.cacheKey.data, cache.cacheKey.size) == old_id);
 	/* string-model invariant: equal identities have equal lengths */
 	__CPROVER_assume(old_id != new_id || cache.cacheKey.size == keySize);
 	randomx_init_cache(&cache, key, keySize);
